@@ -613,18 +613,39 @@ def splitOnChar (sep : Char) : List Char → List (List Char)
 
 def splitKey (sep : Char) (k : String) : Path := (splitOnChar sep k.toList).map String.ofList
 
+/-- `sep in key` for strings: does `s` occur in the list? (the empty string occurs everywhere) -/
+def hasInfix (s : List Char) : List Char → Bool
+  | [] => s.isEmpty
+  | c :: r => s.isPrefixOf (c :: r) || hasInfix s r
+
+def sepIn (sep k : String) : Bool := hasInfix sep.toList k.toList
+
+/-- `key.split(sep)` for a non-empty separator of any length: leftmost, non-overlapping occurrences.
+`cur` is the piece being read (reversed); the fuel bounds the number of steps by the length of the key. -/
+def splitOnStr (sep : List Char) : Nat → List Char → List Char → List (List Char)
+  | 0, _, cur => [cur.reverse]
+  | _ + 1, [], cur => [cur.reverse]
+  | n + 1, c :: r, cur =>
+    if sep.isPrefixOf (c :: r) then cur.reverse :: splitOnStr sep n ((c :: r).drop sep.length) []
+    else splitOnStr sep n r (c :: cur)
+
+def splitKeyS (sep k : String) : Path := (splitOnStr sep.toList (k.length + 1) k.toList []).map String.ofList
+
 /-- mirrors base.py:unflatten_keys(inplace=True): every root key containing the separator is renamed
 (safe=True) to its split form; any KeyError is re-raised as KeyError, earlier renames persist -/
-def unflattenLoop (sep : Char) : List String → Entry → Entry × Out
+def unflattenLoop (sep : String) : List String → Entry → Entry × Out
   | [], t => (t, .ok)
   | k :: ks, t =>
-    if k.toList.contains sep then
-      match renameKey [k] (splitKey sep k) true t with
+    if sepIn sep k then
+      match renameKey [k] (splitKeyS sep k) true t with
       | (t', .err e) => (t', .err e)
       | (t', _) => unflattenLoop sep ks t'
     else unflattenLoop sep ks t
 
-def unflattenT (sep : Char) (inplace : Bool) (t : Entry) : Entry × Out :=
+/-- `unflatten_keys(sep, inplace)`; the empty separator occurs in every key and `key.split("")` raises ValueError
+(nothing happens to a tensordict without entries) -/
+def unflattenT (sep : String) (inplace : Bool) (t : Entry) : Entry × Out :=
+  if sep = "" ∧ rootKeys t ≠ [] then (t, .err .value) else
   match unflattenLoop sep (rootKeys t) t with
   | (t', .err e) => if inplace then (t', .err e) else (t, .err e)
   | (t', _) => if inplace then (t', .ok) else (t, .res [t'])
@@ -687,7 +708,7 @@ inductive Op where
   | select (keys : List Path) (strict inplace : Bool)
   | exclude (keys : List Path) (inplace : Bool)
   | flatten (sep : String) (inplace : Bool)
-  | unflatten (sep : Char) (inplace : Bool)
+  | unflatten (sep : String) (inplace : Bool)
   | split (sets : List (List Path)) (inplace strict : Bool)
   | clear
   | empty
@@ -715,6 +736,57 @@ def step (t : Entry) : Op → Entry × Out
   | .split sets inplace strict => splitT sets inplace strict t
   | .clear => clearT t
   | .empty => emptyT t
+
+/-! ### LazyStackedTensorDict with homogeneous keys (tensordict/_lazy.py)
+
+The mapping operations of a lazy stack are loops over `self.tensordicts`: `_set_str` / `_set_tuple` (the value is unbound
+along the stack dim, one piece per member), `del_`, `rename_key_`, `_select`, `_exclude`, `_flatten_keys_outplace`; `pop`,
+`setdefault`, `clear`, `split_keys`, `flatten_keys(inplace=True)` and `unflatten_keys` are the generic implementations of
+tensordict/base.py running on those. Each member is a TensorDict, so each member moves by `step` — except that the generic
+`unflatten_keys` walks `list(self.keys())`, and the root keys of a lazy stack come SORTED (`_key_list`: `sorted(set
+intersection)`), so the renames happen in sorted order. -/
+
+/-- `unflatten_keys` on a member of a lazy stack: the loop runs over the sorted root keys -/
+def unflattenTL (sep : String) (inplace : Bool) (t : Entry) : Entry × Out :=
+  if sep = "" ∧ rootKeys t ≠ [] then (t, .err .value) else
+  match unflattenLoop sep (sortBy id (rootKeys t)) t with
+  | (t', .err e) => if inplace then (t', .err e) else (t, .err e)
+  | (t', _) => if inplace then (t', .ok) else (t, .res [t'])
+
+/-- tensordict/_lazy.py:LazyStackedTensorDict.pop — unlike the generic `pop` (get, then del_, inside try/except) it first asks
+`key in self.keys()` / `key in self.keys(True)` (tensordict/_lazy.py:_LazyStackedTensorDictKeysView.__contains__: the first
+component among the keys of the stack, then `key[1:] in member.get(key[0]).keys(True)` for every member — an AttributeError
+when that entry is a tensor) and only then reads and deletes; an absent key gives the default or KeyError, also when it runs
+through a tensor further down. Seen on one member. -/
+def popLazy (p : Path) (hasDefault : Bool) (t : Entry) : Entry × Out :=
+  let absent : Entry × Out := if hasDefault then (t, .val none) else (t, .err .key)
+  match p, t with
+  | [], _ => (t, .err .index)
+  | _ :: _, .leaf .. => (t, .err .attr)
+  | [k], .node kids => if (dget k kids).isSome then popT [k] hasDefault t else absent
+  | k :: k2 :: r, .node kids =>
+    match dget k kids with
+    | none => absent
+    | some (.leaf ..) => (t, .err .attr)
+    | some (.node sub) =>
+      match containsNested (k2 :: r) (.node sub) with
+      | .ok true => popT (k :: k2 :: r) hasDefault t
+      | .ok false => absent
+      | .error e => (t, .err e)
+
+/-- one member of a lazy stack under one operation of the stack -/
+def stepMember (t : Entry) : Op → Entry × Out
+  | .unflatten sep inplace => unflattenTL sep inplace t
+  | .pop p d => popLazy p d t
+  | op => step t op
+
+/-- the stack: every member moves; the answer is the one of the first member (the members of a homogeneous stack answer
+alike); out-of-place results are stacks of the members' results -/
+def lazyStep (ms : List Entry) (op : Op) : List Entry × Out :=
+  (ms.map fun m => (stepMember m op).1,
+   match ms with
+   | [] => .err .runtime
+   | m :: _ => (stepMember m op).2)
 
 def run (t : Entry) : List Op → Entry
   | [] => t
